@@ -157,6 +157,55 @@ def opColumn (j : Json) : Except String Json := do
     | .error e => out := out.push (Json.mkObj [("err", errName e)])
   pure (Json.arr out)
 
+def condOf (j : Json) : Except String Cond := do
+  match ← arr j with
+  | [k, a] =>
+    match ← k.getStr? with
+    | "min_len" => pure (.minLen (← nat a))
+    | "max_len" => pure (.maxLen (← nat a))
+    | "equals" => pure (.equals (← str a))
+    | "differs" => pure (.differs (← str a))
+    | "starts_with" => match ← str a with
+      | [c] => pure (.startsWith c)
+      | _ => throw "starts_with"
+    | _ => throw "bad condition"
+  | _ => throw "bad condition"
+
+def dretName : DRet → String
+  | .discarded => "DISCARDED" | .close => "CLOSE" | .exit1 => "exit1"
+
+/-- one dialog object of simpleline/render/adv_widgets.py given a sequence of lines: what each `input()` returns and what the dialog remembers afterwards -/
+def opDialog (j : Json) : Except String Json := do
+  let keys ← (← arr (← field j "keys")).mapM str
+  let optS (o : Option (List Char)) : Json := match o with | some s => ofStr s | none => Json.null
+  match ← (← field j "kind").getStr? with
+  | "yesno" =>
+    let mut d : YesNo := {}
+    let mut out : Array Json := #[]
+    for k in keys do
+      let r := d.input k; d := r.1
+      out := out.push (Json.mkObj [("ret", dretName r.2), ("state", match d.answer with | some b => Json.bool b | none => Json.null)])
+    pure (Json.arr out)
+  | "password" =>
+    let mut d : PwDialog := {}
+    let mut out : Array Json := #[]
+    for k in keys do
+      let r := d.input k; d := r.1
+      out := out.push (Json.mkObj [("ret", dretName r.2), ("state", optS d.password)])
+    pure (Json.arr out)
+  | "help" => pure (Json.arr (keys.map fun k => Json.mkObj [("ret", dretName (helpInput k)), ("state", Json.null)]).toArray)
+  | "error" => pure (Json.arr (keys.map fun k => Json.mkObj [("ret", dretName (errorInput k)), ("state", Json.null)]).toArray)
+  | "getinput" =>
+    let conds ← (← arr (← field j "conds")).mapM condOf
+    let mut d : GetInput := { conds := conds }
+    let mut out : Array Json := #[]
+    for k in keys do
+      let asked := (testInput d.conds k).2
+      let r := d.input k; d := r.1
+      out := out.push (Json.mkObj [("ret", dretName r.2), ("state", optS d.value), ("asked", Json.num asked)])
+    pure (Json.arr out)
+  | _ => throw "bad dialog kind"
+
 def opKey (j : Json) : Except String Json := do
   let cc ← charClass (← field j "cc")
   let kp ← keyPat (← field j "kp")
@@ -214,6 +263,7 @@ def pureOp (op : String) (j : Json) : Option (Except String Json) :=
   | "key" => some (opKey j)
   | "keytree" => some (opKeyTree j)
   | "column" => some (opColumn j)
+  | "dialog" => some (opDialog j)
   | "prompt" => some (opPrompt j)
   | "paging" => some (opPaging j)
   | _ => none
